@@ -8,6 +8,7 @@ ENUM_CFG = "INIT EnumInit\nNEXT EnumNext\nCONSTRAINT EnumEmit\nINVARIANT LawsHol
 JUDGE_CFG = "INIT JudgeInit\nNEXT JudgeNext\nCHECK_DEADLOCK FALSE\n"
 DRIVER = "checks.c13_driver:driver"
 ERR_TREE = {"t": "error", "op": "", "kids": []}
+TEXT_KINDS = ("tprog", "cdel", "sbad", "utdel", "rxdel", "rxnl")     # programs with holes filled by the specification
 PRE_EXPR = "var a=6,b=3,c=2,p=5,q=2,r=1,x=7,y=1,z=2,k=0;\n"
 PRE_PROG = "var a=1,b=2,c=3,d=4;\n"
 
@@ -34,8 +35,8 @@ def norm_act(p):
 NOEV = {"o": "none", "v": {"k": "undef"}, "name": ""}
 
 
-def rec(i, kind, a=(), toks=(), u=(), lay=(), act=None, act0=None, ev0=None, ev1=None, ast0="", ast1=""):
-    return {"id": i, "kind": kind, "a": list(a), "toks": list(toks), "u": list(u), "lay": list(lay),
+def rec(i, kind, a=(), toks=(), u=(), lay=(), act=None, act0=None, ev0=None, ev1=None, ast0="", ast1="", u0=()):
+    return {"id": i, "kind": kind, "a": list(a), "toks": list(toks), "u": list(u), "u0": list(u0), "lay": list(lay),
             "act": act or {"o": "none", "t": ERR_TREE}, "act0": act0 or {"o": "none", "t": ERR_TREE}, "ev0": ev0 or NOEV, "ev1": ev1 or NOEV, "ast0": ast0, "ast1": ast1}
 
 
@@ -102,7 +103,16 @@ def run_batch(rep, rng, quick, lo, hi, totals):
         elif kd in ("prog", "pdelbr", "pdelterm"):
             src = R.render_tokens(c["toks"])
             add(parse=[src], mode="prog", what="text", kind=kd, a=c["a"], toks=c["toks"], u=wire.units(src))
-        elif kd in ("num", "str"):
+        elif kd == "cmt":
+            # a comment chosen by the specification written into a program: base (hole empty) and variant
+            s0 = R.render_holes(c["toks"], {"<L1>": wire.from_units(c["u0"]), "<L2>": wire.from_units(c["u2"])})
+            s1 = R.render_holes(c["toks"], {"<L1>": wire.from_units(c["u"]), "<L2>": wire.from_units(c["u2"])})
+            add(parse=[s0, s1], mode="prog", evals=[PRE_PROG + s0, PRE_PROG + s1], what="cmt", kind=kd, a=c["a"], toks=c["toks"],
+                u=wire.units(s1), u0=wire.units(s0))
+        elif kd in TEXT_KINDS:
+            src = R.render_holes(c["toks"], {"<L1>": wire.from_units(c["u"]), "<L2>": wire.from_units(c["u2"])})
+            add(parse=[src], mode="prog", what="text", kind=kd, a=c["a"], toks=c["toks"], u=wire.units(src))
+        elif kd in ("num", "str", "strb"):
             s1 = wire.from_units(c["u"])
             s0 = wire.from_units(c["u0"])
             add(evals=["var r = " + s0 + "; r", "var r = " + s1 + "; r"], what="lit", kind=kd, a=c["a"], u=c["u"])
@@ -148,6 +158,11 @@ def run_batch(rep, rng, quick, lo, hi, totals):
             recs.append(rec(r["id"], info["kind"], a=info["a"], toks=info["toks"], u=info["u"], act=norm_act(r["parsed"][0])))
         elif w == "lit":
             recs.append(rec(r["id"], info["kind"], a=info["a"], u=info["u"], ev0=norm_out(r["evals"][0]), ev1=norm_out(r["evals"][1])))
+        elif w == "cmt":
+            p0, p1 = r["parsed"]
+            recs.append(rec(r["id"], "cmt", a=info["a"], toks=info["toks"], u=info["u"], u0=info["u0"],
+                            ast0=p0.get("ast", "") if p0["o"] == "tree" else p0["o"], ast1=p1.get("ast", "") if p1["o"] == "tree" else p1["o"],
+                            ev0=norm_out(r["evals"][0]), ev1=norm_out(r["evals"][1])))
         elif w == "variant":
             recs.append(rec(r["id"], "variant", a=info["a"], toks=info["toks"], lay=info["lay"], act0=norm_act(r["parsed"][0]),
                             act=norm_act(r["parsed"][1]),
@@ -173,6 +188,9 @@ def run_batch(rep, rng, quick, lo, hi, totals):
             continue
         if v["v"] == "notjudged":
             totals["notjudged"] += 1
+            from harness.common import workdir
+            with open(os.path.join(workdir(rep.pid), "notjudged.txt"), "a") as f:       # scratch, for triage
+                f.write(show(r, ecases[i]) + "\n")
             continue
         if v["v"] == "unsupported":
             raise Machinery("judge called a generated case unsupported (%s): %s" % (v["why"], show(r, ecases[i])))
